@@ -132,6 +132,29 @@ def run(repo):
                                  '%s uses `%s`: the cones of a program have different sizes, so a stride, width or count '
                                  'taken from one of them describes the others wrongly' % (fi.fq, ntext(n)),
                                  repo.where(fi, n), {'props': ['C16', 'C07', 'C18']}))
+        # (c2) the same through a vector of per-cone sizes:  sizes = [len(q) for q in X.qmat] ; sizes[0]
+    for fi in repo.all_functions():
+        if fi.module in ('deco', 'cpt_solver_bkp'):
+            continue
+        sizes = set()
+        for n in walk_no_nested(fi.node):
+            if isinstance(n, ast.Assign) and len(n.targets) == 1 and isinstance(n.targets[0], ast.Name):
+                for c in ast.walk(n.value):
+                    if isinstance(c, (ast.ListComp, ast.GeneratorExp)) and len(c.generators) == 1 and \
+                            isinstance(c.elt, ast.Call) and call_name(c.elt) == 'len' and \
+                            isinstance(c.generators[0].iter, ast.Attribute) and \
+                            c.generators[0].iter.attr in ('qmat', 'xmat', 'lmi'):
+                        sizes.add(n.targets[0].id)
+        for n in walk_no_nested(fi.node):
+            if isinstance(n, ast.Subscript) and isinstance(n.value, ast.Name) and n.value.id in sizes and \
+                    isinstance(n.slice, ast.Constant) and n.slice.value in (0, -1) and isinstance(n.ctx, ast.Load):
+                res.functions.add(fi.fq)
+                res.inst({'function': fi.fq, 'representative cone size': ntext(n), 'ok': False}, False)
+                res.fail(Finding(RULE, fi.fq, 'first cone as representative: ' + ntext(n),
+                                 '%s uses `%s`, the size of one cone, in a computation over all cones (`%s` holds one size '
+                                 'per cone): offsets, strides or counts derived from it are wrong as soon as the cones '
+                                 'differ in size' % (fi.fq, ntext(n), n.value.id), repo.where(fi, n),
+                                 {'props': ['C08', 'C16', 'C07', 'C18']}))
     # (d) an "any of the items" flag: initialised to a constant before a loop, switched inside it, read after it.  Inside
     #     the loop it may only be *set* to a constant under a test; an unconditional assignment from the current item
     #     makes the flag describe the last item only.
